@@ -82,6 +82,10 @@ def evalStateless (tag : String) (a : List String) : Option (String × String) :
     -- does a frame of this total size pass the receive guard read from conn.Recv?
     let r := Wire.rejects Generated.connRecvGuard (natArg total) (natArg maxrx)
     some (if r then "lost" else "delivered", if r then "refused" else "fits")
+  | "lim.fit", [_, _, _, maxrx, total] =>
+    -- the same verdict for a limit configured on a real transport by any route (socket, option map, SetOption, late)
+    let r := Wire.rejects Generated.connRecvGuard (natArg total) (natArg maxrx)
+    some (if r then "lost" else "delivered", if r then "refused" else "fits")
   | "hs.hdr", [proto] => some (toHexD (Wire.header (natArg proto)), "hdr")
   | "hs.chk", [peer, h] =>
     let r := Wire.checkHeaderGen Generated.hsChecks (natArg peer) (hexArg h)
